@@ -129,6 +129,22 @@ theorem c12_once {H : Heap} (hH : HeapSpec H) {s : State} (h : Reachable H s) (i
     (aliveSerials s.heap).count i + (s.log.map (·.serial)).count i = if i < s.nextSerial then 1 else 0 :=
   (reachable_inv hH h).once i
 
+/-- A sleep never completes inside `schedule()`/`sleep_until()` itself (not even with a time point in the past): after
+the call it is pending, exactly once, and nothing else completed. -/
+theorem c12_schedule_pending {H : Heap} (hH : HeapSpec H) {s : State} (h : Reachable H s) (hal : s.alive = true)
+    (tp id : Nat) :
+    (stepSchedule H s tp id).1.log = s.log ∧
+    (aliveSerials (stepSchedule H s tp id).1.heap).count s.nextSerial = 1 := by
+  have hi := reachable_inv hH h
+  have h1 := (inv_schedule hH hi hal tp id).once s.nextSerial
+  have h0 := hi.once s.nextSerial
+  have hlog : (stepSchedule H s tp id).1.log = s.log := rfl
+  have hn : (stepSchedule H s tp id).1.nextSerial = s.nextSerial + 1 := rfl
+  rw [hlog, hn] at h1
+  simp only [Nat.lt_irrefl, if_false] at h0
+  simp only [Nat.lt_succ_self, if_true] at h1
+  exact ⟨rfl, by omega⟩
+
 /-! ## not late -/
 
 /-- `get_expired(now)` answers with a time point only when no pending sleep is due, and the time point is exactly the
